@@ -486,5 +486,20 @@ func runC01(c *Ctx) {
 		}
 		c01Run(c, cs)
 	})
+	// long-lived channels: enough packets for the 8-bit packet number of a
+	// logical channel to wrap around twice (each case ~600 packets), with
+	// the two channels of the connection alternating
+	for li := 0; li < 3; li++ {
+		rnd := rt.NewRand(c.Seed, fmt.Sprintf("c01/long/%d", li))
+		cs := c01Case{Logical: true}
+		ps := []int{256, 263, 512}[li]
+		for len(cs.Messages) < 90 {
+			m := c01GenMsg(rnd, ps, rnd.Range(4, 9), rnd.Range(-1, 1))
+			m.OnChannel0 = li == 2 && len(cs.Messages)%3 == 2
+			cs.Messages = append(cs.Messages, m)
+		}
+		c01Run(c, cs)
+		r.Count("long_lived_channel_cases", 1)
+	}
 	runSockLegC01(c)
 }
